@@ -141,6 +141,7 @@ def gen_definition(rng, tag):
     d.vectorized = rng.random() < 0.6
     # a scalar (point-by-point) kernel may treat the origin apart and write the limit there as a whole number:
     # "if q == 0: return 1".  The q vectors of such a definition start at the origin.
+    d.block_style = rng.random() < 0.4 or tag == 0
     if tag == 2:
         d.vectorized = False
     d.origin_int = (not d.vectorized) and (rng.random() < 0.6 or tag == 2)
@@ -183,19 +184,38 @@ def sig(d, vars_kind, c):
 
 def c_module(d, name):
     t = ['from numpy import inf', 'name = "%s"' % name, 'title = "C09 generated"', 'description = "generated"', 'category = "shape:sphere"', table_text(d)]
-    if d.form_volume:
-        t.append('form_volume = "return %s;"' % show(d.form_volume, False))
-    if d.shell_volume:
-        t.append('shell_volume = "return %s;"' % show(d.shell_volume, False))
-    og = "if (q == 0.0) return 1.0; " if getattr(d, "origin_int", False) else ""
-    t.append('Iq = "%sreturn %s;"' % (og, show(d.Iq, False)))
-    if d.Iqxy:
-        og = "if (qx == 0.0 && qy == 0.0) return 1.0; " if getattr(d, "origin_int", False) else ""
-        t.append('Iqxy = "%sreturn %s;"' % (og, show(d.Iqxy, False)))
+    og1 = "if (q == 0.0) return 1.0; " if getattr(d, "origin_int", False) else ""
+    og2 = "if (qx == 0.0 && qy == 0.0) return 1.0; " if getattr(d, "origin_int", False) else ""
+    code = []
+    if getattr(d, "block_style", False):
+        # the same definition written the way the builtin models are: complete C functions in one source text, with
+        # block comments between them
+        code.append("/* generated definition: volumes */")
+        if d.form_volume:
+            code.append("static double form_volume(%s) { return %s; }" % (", ".join(sig(d, "vol", True)), show(d.form_volume, False)))
+        if d.shell_volume:
+            code.append("/* hollow: the shell volume normalises */")
+            code.append("static double shell_volume(%s) { return %s; }" % (", ".join(sig(d, "vol", True)), show(d.shell_volume, False)))
+        code.append("/* intensity */")
+        code.append("static double Iq(double q, %s) { %sreturn %s; }" % (", ".join(sig(d, "iq", True)), og1, show(d.Iq, False)))
+        if d.Iqxy:
+            code.append("/* its own 2-D function */")
+            code.append("static double Iqxy(double qx, double qy, %s) { %sreturn %s; }" % (", ".join(sig(d, "iq", True)), og2, show(d.Iqxy, False)))
+        code.append("/* end of the generated definition */")
+    else:
+        if d.form_volume:
+            t.append('form_volume = "return %s;"' % show(d.form_volume, False))
+        if d.shell_volume:
+            t.append('shell_volume = "return %s;"' % show(d.shell_volume, False))
+        t.append('Iq = "%sreturn %s;"' % (og1, show(d.Iq, False)))
+        if d.Iqxy:
+            t.append('Iqxy = "%sreturn %s;"' % (og2, show(d.Iqxy, False)))
     if d.modes:
         t.append("radius_effective_modes = %r" % ["mode%d" % (i + 1) for i in range(len(d.modes))])
         body = " ".join("if (mode == %d) return %s;" % (i + 1, show(e, False)) for i, e in enumerate(d.modes))
-        t.append('c_code = "static double radius_effective(int mode, %s) { %s return 0.0; }"' % (", ".join(sig(d, "vol", True)), body))
+        code.append("static double radius_effective(int mode, %s) { %s return 0.0; }" % (", ".join(sig(d, "vol", True)), body))
+    if code:
+        t.append('c_code = """\n%s\n"""' % "\n".join(code))
     if d.valid:
         t.append('valid = "%s > %r"' % d.valid)
     t.append("have_Fq = False")
